@@ -272,7 +272,8 @@ RawDecision(nd, idx, args) ==
   THEN nd.dec_args[CHOOSE i \in 1..Len(nd.dec_args) :
            nd.dec_args[i][1] \in ArgVals(args) /\ \A j \in 1..(i-1) : nd.dec_args[j][1] \notin ArgVals(args)][2]
   ELSE nd.script[Min2(idx, Len(nd.script))]
-Fails(nd, idx, args) == idx \in Names(nd.fail_at) \/ ArgVals(args) \cap Names(nd.fail_args) # {}
+\* fn = "short": a node with several data outputs whose function returns too few values: wrapping the result fails
+Fails(nd, idx, args) == idx \in Names(nd.fail_at) \/ ArgVals(args) \cap Names(nd.fail_args) # {} \/ nd.fn = "short"
 \* runners/_shared/gate_execution.py: fallback for None, [] / None mean "no target"
 Decide(nd, raw) ==
   IF raw = <<None>> THEN (IF nd.kind = "route" /\ ~nd.multi /\ nd.fallback # None
